@@ -21,6 +21,11 @@ RULES = {
     'C14.c': 'the Secondary arm of the fan-out sends nothing; the forwarder sends to the Primary member only',
     'C14.e': 'at most one cluster member is Primary: every store of a possibly-Primary role into ClusterState.members (insert or '
              'field assignment) happens in a function that, under a role == Primary test, first demotes every existing member',
+    'C14.f': 'a reply that a handler of a node-to-node command writes to its session is read by the sending node\'s link reader, which '
+             'executes every line except `ok`: no such reply parses as a command (its first word is no command word, or that '
+             'command\'s parser refuses it for a missing required argument); the acknowledgement `ack` is the one designed exception',
+    'C14.g': 'the replication table emits a bounded number of messages per request: no emission call of an arm lies on a loop '
+             '(a loop over a list the client supplied makes the burst as long as the client likes)',
     'C14.d': 'register_pending_opp precedes the send of each fanned-out copy; the rp wrapper sends exactly one ack',
 }
 
@@ -67,6 +72,8 @@ def template_unversioned(P, f):
 def run(ck, m):
     _run(ck, m)
     single_primary(ck, m)
+    link_replies(ck, m)
+    table_emits_once(ck, m)
 
 
 def _run(ck, m):
@@ -358,3 +365,122 @@ def single_primary(ck, m, rule='C14.e'):
               'entries and the forwarder sends every client write of a secondary to both' % (short(b.id), [sorted(x) for _, x in may_primary]),
               b.loc(may_primary[0][0]))
     ck.floor(rule, n, 1, 'functions that can store a Primary member')
+
+
+DESIGNED_LINK_REPLIES = {
+    'ack': 'the acknowledgement of an rp message: executing it on the sender is its purpose (accounting judged by C15)',
+}
+
+
+def link_replies(ck, m):
+    """C14.f — see RULES"""
+    from props import C10
+    P = m.prog
+    prods, schemas = C10.wire_facts(m)
+    ex = m.explorer()
+    # the reader of a node link: takes lines from the socket and executes them, `ok` aside
+    readers = []
+    for b in P.user_bodies():
+        if b.id.startswith(('nundb::client::', 'nundb::command_line::')):
+            continue
+        if not any(callee(t) in m.reentry_names() for _, t in b.calls()):
+            continue
+        oks = [bi for bi, t in b.calls() if callee_decl(t).endswith(('PartialEq::eq', 'PartialEq::ne'))
+               and any(core.const_str(r) == 'ok' for a in t['args'] for r in origins(b, a))]
+        if oks:
+            readers.append(b)
+    ck.floor('C14.f', len(readers), 1, 'link readers (execute every line read from a node link except `ok`)')
+    # variants that node-to-node messages parse to
+    linkv = {}
+    for p_ in prods:
+        if not (p_.chans & {'repl', 'member'}):
+            continue
+        for f in p_.fmts:
+            fs = [f]
+            toks = wire.template_tokens(f)
+            if wire.first_word(f) == 'rp' and len(toks) == 3 and len(toks[2]) == 1 and toks[2][0][0] == 'arg':
+                f2, _o2 = wire.message_templates(P, f.body, toks[2][0][1])
+                fs = list(f2) + [f]
+            for g in fs:
+                vs, w = repl.receiver_variants(m, g)
+                for v in vs or []:
+                    linkv.setdefault(v, g.text())
+    for fs_ in repl.table_emissions(m).values():
+        for g in fs_:
+            vs, w = repl.receiver_variants(m, g)
+            for v in vs or []:
+                linkv.setdefault(v, g.text())
+    ck.floor('C14.f', len(linkv), 10, 'request variants that node-to-node messages parse to')
+    d, sw = m.dispatcher()
+    nrep = 0
+    seen = set()
+    for v in sorted(linkv):
+        if v not in sw[1]:
+            continue
+        effs, raw = m.arm_effects(v)
+        for ev, kind, info in effs:
+            if kind != 'send' or 'client' not in info['chan']:
+                continue
+            for mv in info['msg']:
+                if mv[0] == 'const':
+                    s_ = core.const_str(mv)
+                    if not isinstance(s_, str):
+                        continue
+                    fr = ev.frame
+                    f = core.Fmt(fr.body, ev.bi, [('lit', s_)], [])
+                    mv = ('fmt', None, ev.bi)
+                elif mv[0] == 'fmt':
+                    fr = ex.frames[mv[1]]
+                    f = core.fmt_at(fr.body, mv[2])
+                    if f is None:
+                        continue
+                else:
+                    continue
+                nrep += 1
+                w = wire.first_word(f)
+                if w not in schemas:
+                    continue
+                key = (short(fr.body.id), f.text().strip())
+                if key in seen:
+                    continue
+                seen.add(key)
+                if w in DESIGNED_LINK_REPLIES:
+                    ck.ob('C14.f', key[0], 'reply:%s' % key[1], True, 'designed: ' + DESIGNED_LINK_REPLIES[w], fr.body.loc(mv[2]))
+                    continue
+                top, variants, reason = schemas[w]
+                problems, _mapping = wire.check_template(P, f, top)
+                refused = [x for x in problems if 'required slot' in x]
+                ck.ob('C14.f', key[0], 'reply:%s' % key[1], bool(refused),
+                      'the reply %r starts with the command word %r; its parser refuses it (%s), the link reader drops it' % (f.text(), w, refused[0]) if refused else
+                      'the reply %r (answer to a %s that arrived over a node link, e.g. %r) parses as the command %r -> %s: the node that sent the '
+                      'message reads the reply on its link and executes it — one client operation produces a second, unrequested command and '
+                      'its own replication burst' % (f.text(), v, linkv[v], w, variants), fr.body.loc(mv[2]))
+    ck.floor('C14.f', nrep, 5, 'session replies of handlers of node-to-node commands')
+
+
+def table_emits_once(ck, m):
+    """C14.g — see RULES"""
+    rb, rsw = m.replication_table()
+    n = 0
+    for variant, tb in sorted(rsw[1].items()):
+        if tb == rsw[2]:
+            continue
+        region = m.arm_region(rb, rsw, variant)
+        looped = []
+        for bi in sorted(region):
+            t = rb.term(bi)
+            if t['k'] != 'call' or is_log(t):
+                continue
+            cb = m.prog.bodies.get(callee(t))
+            if cb is None or not repl.sends_repl(m, cb.id):
+                continue
+            n += 1
+            if bi in rb.reach_from([bi]):
+                looped.append(rb.loc(bi))
+        if looped:
+            ck.ob('C14.g', short(rb.id), 'arm:%s:emission-not-in-a-loop' % variant, False,
+                  'the %s arm of the replication table emits inside a loop (%s): one client command is fanned out as many messages — and as '
+                  'many acknowledgements per secondary — as the list it carries has entries; the count is chosen by the client'
+                  % (variant, looped), looped[0])
+    ck.ob('C14.g', short(rb.id), 'emissions-outside-loops', True, '%d emission calls of the replication table examined' % n, '')
+    ck.floor('C14.g', n, 8, 'emission calls in the replication table')
